@@ -18,7 +18,8 @@ EXPLANATION = ("Backend hand-over chain. R1 consume-after-decode: in both instan
                "removed only under 'invalid and queue empty and transit buffer empty' (both queue kinds). R6: the transit buffer "
                "grows by moving events in order. R7: only backend-role code consumes queues and transit buffers."
                ' R6d-i: TransitEventBuffer ring rules. R8-R10 (= C20.R5, C17.R3, C07.R1): the backend sees every registered context, an accepted removal is carried out, the exit drain leaves only when empty.'
-               ' R12 (= C12.R9a): a statement made with run-time source metadata is turned into an ordinary Log event on every formatting path of the decoder, named-args arm included. R13 (= C05.R2) hold-back exemptions; R14: the LoggerBase constructor stores every parameter (name, sinks, options, clock) in its member; R15 (= C05.R3): the selection passes a buffered statement over only in favour of one already chosen; R4t also asks that copy_to carries the text (append / assign, not reserve) and copies the named args exactly when there are some.')
+               ' R12 (= C12.R9a): a statement made with run-time source metadata is turned into an ordinary Log event on every formatting path of the decoder, named-args arm included. R13 (= C05.R2) hold-back exemptions; R14: the LoggerBase constructor stores every parameter (name, sinks, options, clock) in its member; R15 (= C05.R3): the selection passes a buffered statement over only in favour of one already chosen; R4t also asks that copy_to carries the text (append / assign, not reserve) and copies the named args exactly when there are some.'
+               ' R16 (= C05.R9): exits of the per-queue read loop.')
 NOT_DECIDED = ("End-to-end exactly-once / order over all schedules, thread exits and limits (behavioural; depends on C01/C02 "
                "holding as behaviour and on value reasoning about the soft/hard limits).")
 ASSUMPTIONS = ["clang CFG without EH edges; exceptional flow is covered by the try/catch structure rules (R3, C10)"]
